@@ -467,6 +467,32 @@ func genNet(r *common.Rng) netCase {
 		}
 		nc.procs[i].src = l
 	}
+	if r.Chance(1, 5) {
+		// one consumer's program ends (no closing jump) right after one of its reads: the processor halts
+		// with its acknowledge still up and the deferred release still pending, while the other parties
+		// go on.  (Hardware has no halt -- it would run whatever the ROM holds past the program -- so such
+		// nets are compared in the simulator only.)
+		var cand []int
+		for i, p := range nc.procs {
+			for _, l := range p.src {
+				if strings.HasPrefix(l, "i2rw ") {
+					cand = append(cand, i)
+					break
+				}
+			}
+		}
+		if len(cand) > 0 {
+			i := cand[r.Intn(len(cand))]
+			var at []int
+			for k, l := range nc.procs[i].src {
+				if strings.HasPrefix(l, "i2rw ") {
+					at = append(at, k)
+				}
+			}
+			k := at[r.Intn(len(at))]
+			nc.procs[i].src = append(append([]string{}, nc.procs[i].src[:k+1]...), pad(r, 2)...)
+		}
+	}
 	if r.Chance(1, 2) { // simulated per-opcode latencies: relative speeds vary without changing the programs
 		var ds []string
 		for _, op := range []string{"nop", "i2rw", "r2owa", "inc", "j"} {
